@@ -476,6 +476,14 @@ struct TableProvider : public resolvo::DependencyProvider {
     /// `Dependencies` struct has no way to express "unknown", they were answered with no deps.
     std::vector<uint32_t> unknown_requested;
 
+    /// caching mode: the provider keeps the vectors it has handed out and answers with *copies* of them (which share
+    /// their buffers), as a provider with its own metadata cache does; `cache_intact()` re-reads every kept vector
+    bool cache_mode = false;
+    std::map<uint32_t, resolvo::Candidates> cand_cache;
+    std::map<uint32_t, resolvo::Dependencies> dep_cache;
+    std::map<std::pair<uint32_t, bool>, resolvo::Vector<resolvo::SolvableId>> filter_cache;
+    std::map<std::pair<uint32_t, bool>, std::vector<uint32_t>> filter_expect;
+
     explicit TableProvider(Universe universe) : u(std::move(universe)) {}
 
     resolvo::String display_solvable(resolvo::SolvableId s) override {
@@ -520,7 +528,7 @@ struct TableProvider : public resolvo::DependencyProvider {
         return resolvo::Slice<resolvo::VersionSetId>(it->second.data(), it->second.size());
     }
 
-    resolvo::Candidates get_candidates(resolvo::NameId n) override {
+    resolvo::Candidates build_candidates(resolvo::NameId n) {
         resolvo::Candidates c{};
         c.favored = nullptr;
         c.locked = nullptr;
@@ -554,9 +562,9 @@ struct TableProvider : public resolvo::DependencyProvider {
                          });
     }
 
-    resolvo::Vector<resolvo::SolvableId> filter_candidates(
+    resolvo::Vector<resolvo::SolvableId> build_filter(
         resolvo::Slice<resolvo::SolvableId> candidates, resolvo::VersionSetId vs,
-        bool inverse) override {
+        bool inverse) {
         resolvo::Vector<resolvo::SolvableId> out;
         auto it = u.vsets.find(vs.id);
         for (const resolvo::SolvableId &c : candidates) {
@@ -568,7 +576,7 @@ struct TableProvider : public resolvo::DependencyProvider {
         return out;
     }
 
-    resolvo::Dependencies get_dependencies(resolvo::SolvableId s) override {
+    resolvo::Dependencies build_dependencies(resolvo::SolvableId s) {
         resolvo::Dependencies d{};
         auto it = u.solvs.find(s.id);
         if (it == u.solvs.end()) return d;
@@ -583,6 +591,60 @@ struct TableProvider : public resolvo::DependencyProvider {
         for (const Req &r : sv.reqs) d.requirements.push_back(to_requirement(r));
         for (uint32_t c : sv.cons) d.constrains.push_back(resolvo::VersionSetId{c});
         return d;
+    }
+
+    resolvo::Candidates get_candidates(resolvo::NameId n) override {
+        if (!cache_mode) return build_candidates(n);
+        auto it = cand_cache.find(n.id);
+        if (it == cand_cache.end()) it = cand_cache.emplace(n.id, build_candidates(n)).first;
+        return it->second;  // copy: the vectors share their buffers with the cached ones
+    }
+
+    resolvo::Dependencies get_dependencies(resolvo::SolvableId sid) override {
+        if (!cache_mode) return build_dependencies(sid);
+        auto it = dep_cache.find(sid.id);
+        if (it == dep_cache.end()) it = dep_cache.emplace(sid.id, build_dependencies(sid)).first;
+        return it->second;
+    }
+
+    resolvo::Vector<resolvo::SolvableId> filter_candidates(
+        resolvo::Slice<resolvo::SolvableId> candidates, resolvo::VersionSetId vs,
+        bool inverse) override {
+        if (!cache_mode) return build_filter(candidates, vs, inverse);
+        auto key = std::make_pair(vs.id, inverse);
+        auto it = filter_cache.find(key);
+        if (it == filter_cache.end()) {
+            it = filter_cache.emplace(key, build_filter(candidates, vs, inverse)).first;
+            std::vector<uint32_t> e;
+            for (const resolvo::SolvableId &x : std::as_const(it->second)) e.push_back(x.id);
+            filter_expect[key] = e;
+        }
+        return it->second;
+    }
+
+    /// every vector the provider kept still has the contents it was built with
+    bool cache_intact() {
+        for (auto &kv : cand_cache) {
+            resolvo::Candidates fresh = build_candidates(resolvo::NameId{kv.first});
+            if (!(kv.second.candidates == fresh.candidates)) return false;
+            if (!(kv.second.hint_dependencies_available == fresh.hint_dependencies_available)) return false;
+            if (std::as_const(kv.second.excluded).size() != std::as_const(fresh.excluded).size()) return false;
+        }
+        for (auto &kv : dep_cache) {
+            auto it = u.solvs.find(kv.first);
+            if (it == u.solvs.end() || !it->second.known) continue;
+            if (std::as_const(kv.second.requirements).size() != it->second.reqs.size()) return false;
+            resolvo::Vector<resolvo::VersionSetId> cons;
+            for (uint32_t c : it->second.cons) cons.push_back(resolvo::VersionSetId{c});
+            if (!(kv.second.constrains == cons)) return false;
+        }
+        for (auto &kv : filter_cache) {
+            const std::vector<uint32_t> &e = filter_expect[kv.first];
+            if (std::as_const(kv.second).size() != e.size()) return false;
+            size_t i = 0;
+            for (const resolvo::SolvableId &x : std::as_const(kv.second)) if (x.id != e[i++]) return false;
+        }
+        return true;
     }
 };
 
@@ -611,9 +673,15 @@ static void solve_case_body(const CaseBlock &c, FILE *o) {
     for (uint32_t s : provider.u.p_soft) soft.push_back(resolvo::SolvableId{s});
     resolvo::Problem problem = {reqs, cons, soft};
 
+    // every second case: a provider that keeps what it hands out and answers with copies
+    provider.cache_mode = !c.id.empty() && ((c.id.back() - '0') % 2) == 1;
     resolvo::Vector<resolvo::SolvableId> result;
     resolvo::String error = resolvo::solve(provider, problem, result);
     std::string_view message = error;
+    if (provider.cache_mode && !provider.cache_intact()) {
+        fprintf(o, "result abort the vectors kept by the provider no longer have their contents after solve()\n");
+        return;
+    }
 
     // resolvo::solve() drops the bool returned by resolvo_solve: success == empty error string.
     if (message.empty()) {
@@ -703,7 +771,13 @@ static void containers_case_body(const CaseBlock &c, FILE *o) {
                 return true;
             };
             size_t i = 0;
-            if (op == "vinit") {
+            if (op == "vrange") {
+                // the iterator-range constructor for every size (incl. 0..4)
+                std::vector<uint32_t> xs;
+                for (size_t k = 2; k < t.size(); ++k) xs.push_back(must_u32(t[k]));
+                v[h] = Vec(xs.begin(), xs.end());
+                print_vec(o, h, v[h]);
+            } else if (op == "vinit") {
                 switch (t.size() - 2) {  // a real braced-init-list for the common small sizes
                     case 0: v[h] = Vec{}; break;
                     case 1: v[h] = Vec{must_u32(t[2])}; break;
